@@ -184,6 +184,17 @@ def _known_funcs() -> set[str] | None:
 def callers_of(prog: Program, fi) -> list:
     """functions with a call site that resolves to `fi`"""
     out = []
+    if getattr(fi, "is_property", False) and fi.cls is not None:
+        # a property is "called" wherever it is read
+        import ast as _ast
+
+        for fn in prog.funcs.values():
+            if fn is fi or fn.cls is None or not (fi.cls in prog.mro(fn.cls) or fn.cls in prog.mro(fi.cls)):
+                continue
+            if any(isinstance(n, _ast.Attribute) and n.attr == fi.name and isinstance(n.ctx, _ast.Load) for n in prog._own_nodes(fn.node)):
+                if fn not in out:
+                    out.append(fn)
+        return out
     for caller, call in prog._call_sites_by_name().get(fi.name, []):
         try:
             tg = prog.resolve_call(call, caller)
@@ -205,6 +216,8 @@ def owned_by(prog: Program, fn, allowed, _seen: frozenset = frozenset()) -> bool
     known = _known_funcs()
     if known is None or fn.qual in known or fn.qual in _seen:
         return False
+    if fn.qual.split(":", 1)[-1] in {q.split(":", 1)[-1] for q in known} and "<locals>" not in fn.qual:
+        return False  # a known function that moved to another module is not a new helper
     cs = callers_of(prog, fn)
     return bool(cs) and all(owned_by(prog, c, allowed, _seen | {fn.qual}) for c in cs)
 
@@ -237,7 +250,7 @@ def failure_entry(rep, rid: str, prog: Program) -> None:
                 elif m == "handle_exception":
                     if kw.get("exc") != ("param", "exc") or kw.get("result") != ("const", None):
                         problem = "exc / result are not forwarded as (exc, None)"
-                    elif len(cls) != 1 or cls[0].args != [("param", "exc")] or cls[0].recv != attr(SELF, "policy"):
+                    elif len(cls) != 1 or cls[0].args != [("param", "exc")] or not (cls[0].recv == attr(SELF, "policy") or cls[0].callee == attr(attr(SELF, "policy"), "classifier")):
                         problem = f"the policy's classifier must be asked exactly once about this very exception; found {[[show(a) for a in e.args] for e in cls]}"
                     elif len(norm) != 1 or norm[0].args != [cls[0].result] or kw.get("classification") != norm[0].result:
                         problem = f"the classification handed on is {show(kw.get('classification'))}, not the normalised answer the classifier just gave"
